@@ -55,6 +55,20 @@ def run(ctx):
     # runner traces against the machine spec
     fails, runs, events = fam_xpath.validate_traces(ctx, ctrace, 6)
     ctx.traces += runs
+    # history independence on the path families: every machine of the generated vectors is run on the
+    # mock tree, then on a variant tree with different values, then on the first tree again (xp replay, kind "history")
+    g = ctx.tlc("XPathGen", "XPathGen.cfg", workers=10, timeout=1800, heap="8g",
+                consts={"Fams": "{12, 14, 18}" if quick else "{11, 12, 13, 14, 18}", "NRand": 0, "RandKind": '"path"'})
+    hvecs = sorted(os.path.join(g["dir"], f) for f in os.listdir(g["dir"]) if re.match(r"vec_\d+_\d+\.ndjson$", f))
+    hres = ctx.path("hres.ndjson")
+    ctx.run_bin("xp-race", ["replay", "-out", hres] + hvecs, timeout=1800)
+    nhist = 0
+    for o in read_ndjson(hres):
+        nhist += 1
+        for m in o["mism"]:
+            if m["kind"] == "history":
+                ctx.disagree(dict(site="concurrency", what="run-history"), f"a later run of {o['expr']!r} on the same tree differs from the first one after a run on another tree",
+                             dict(kind="history", expr=o["expr"], first=m["want"], later=m["got"]))
     # (iii) free-running stress under the race detector
     sres = ctx.path("sres.ndjson")
     r2 = ctx.run_bin("xp-race", ["stress", "-g", "16", "-n", "400" if quick else "5000", "-out", sres], timeout=1800, check=False)
@@ -94,7 +108,7 @@ def run(ctx):
     cov = dict(evaluations=cstats["steps"], distinct_nontrivial=cstats["schedules"],
                rule="schedules = complete behaviours of XPathConc.tla sampled by TLC -simulate (seeded), each replayed step by step on gated goroutines; "
                     "distinct = schedules (TLC's sampling does not repeat a behaviour with noticeable probability; not deduplicated)",
-               samples=samples, schedule_replay=cstats, stress=sstats, trace_events=events,
+               samples=samples, schedule_replay=cstats, history_vectors=nhist, stress=sstats, trace_events=events,
                race_reports=races + races2, exhaustive=False,
                explanation="exhaustive interleavings of two small configurations on the spec (states/transitions), sampled interleavings replayed on real goroutines under -race")
     return ctx.finish(cov, [
